@@ -1504,9 +1504,18 @@ struct TemplateCore {
             }
 
             case QOperation::Remainder: { // %
-                left.Value.Number.Integer = (left % right);
-                left.Type                 = ExpressionType::IntegerNumber;
-                break;
+                // The remainder works on integers: a real divisor is truncated first.
+                const SizeT64I divisor = ((right.Type == ExpressionType::RealNumber) ? SizeT64I(right.Value.Number.Real)
+                                                                                     : right.Value.Number.Integer);
+
+                if (divisor != 0) {
+                    // x % -1 is always zero (and would trap for the minimum integer).
+                    left.Value.Number.Integer = ((divisor != -1) ? (left % right) : 0);
+                    left.Type                 = ExpressionType::IntegerNumber;
+                    break;
+                }
+
+                return false;
             }
 
             case QOperation::Multiplication: { // *
